@@ -11,6 +11,20 @@ EVI = "nifty.re.evi"
 ROK = "nifty.re.optimize_kl"
 
 
+
+def _white_generators(m):
+    """names that draw white noise of a given tree shape: random_like and thin wrappers f(key, primals) around it in nifty.re.evi"""
+    out = {"random_like"}
+    mod = m.module(EVI)
+    for fi in mod.all_functions:
+        if fi.parent is not None or len(fi.params()) != 2:
+            continue
+        calls = [c for c in ast.walk(fi.node) if isinstance(c, ast.Call) and call_name(c) == "random_like"]
+        if len(calls) == 1 and [src(a) for a in calls[0].args] + [src(k.value) for k in calls[0].keywords] == fi.params():
+            out.add(fi.name)
+    return out
+
+
 def run(ctx):
     m = ctx.model
     ctx.rule("R18.1", "mirrored samples are exact negatives of the same residual: the classic sample list adds or subtracts the SAME "
@@ -218,10 +232,10 @@ def r18_3(ctx, m):
     k1, k2 = [src(e) for e in split[0].targets[0].elts]
     ctx.check("R18.3", key, src(split[0].value.args[0]) == keyn and k1 != k2, src(split[0]), dlr, split[0])
     nll = [st for st in stmts if isinstance(st, ast.Assign) and isinstance(st.value, ast.Call) and call_name(st.value) == "sample_likelihood"]
-    prr = [st for st in stmts if isinstance(st, ast.Assign) and isinstance(st.value, ast.Call) and call_name(st.value) == "random_like"]
+    prr = [st for st in stmts if isinstance(st, ast.Assign) and isinstance(st.value, ast.Call) and call_name(st.value) in _white_generators(m)]
     key = f"{dlr.key}::likelihood draw at the sampling position with one sub-key, prior draw of the liquid shape with the other"
     if len(nll) != 1 or len(prr) != 1:
-        ctx.und("R18.3", key, f"{len(nll)} sample_likelihood / {len(prr)} random_like calls", dlr)
+        ctx.und("R18.3", key, f"{len(nll)} sample_likelihood / {len(prr)} white-noise calls", dlr)
         return
 
     def kwv(c, name, posn=None):
@@ -294,7 +308,7 @@ def r18_3(ctx, m):
     sp_ = slf.params()
     rets = [r for r in walk_no_nested(slf.node) if isinstance(r, ast.Return)]
     fr = [st for st in walk_no_nested(slf.node) if isinstance(st, ast.Assign) and "freeze" in src(st.value) and isinstance(st.targets[0], ast.Tuple)]
-    wn = [st for st in walk_no_nested(slf.node) if isinstance(st, ast.Assign) and isinstance(st.value, ast.Call) and call_name(st.value) == "random_like"]
+    wn = [st for st in walk_no_nested(slf.node) if isinstance(st, ast.Assign) and isinstance(st.value, ast.Call) and call_name(st.value) in _white_generators(m)]
     key = f"{slf.key}::left_sqrt_metric(liquid position, white noise of left_sqrt_metric_tangents_shape)"
     if len(rets) != 1 or len(fr) != 1 or len(wn) != 1:
         ctx.und("R18.3", key, "shape not recognised", slf)
@@ -568,3 +582,146 @@ def run(ctx):  # noqa: F811
     from .refusal import refusal_rule
     refusal_rule(ctx, "R18.6", ["nifty.re.evi"], "the JAX sample generators (draw_linear_residual, nonlinearly_update_residual, draw_residual)",
                  only={"draw_linear_residual", "nonlinearly_update_residual", "draw_residual", "_process_point_estimate", "sample_likelihood"}, floor=1)
+
+
+# ---------------------------------------------------------------------------------------------------------------- R18.7
+def r18_7(ctx, m):
+    R = "R18.7"
+    ctx.rule(R, "classic SampledKLEnergy: the Hamiltonian handed to draw_samples is the one specialised with the point-estimated keys "
+                "(`_, H = _reduce_by_keys(position, hamiltonian, <expression in point_estimates>)`), so point-estimated parameters have "
+                "no residual and the other parameters get the conditional covariance; a specialisation keyed by another list "
+                "(constants, their intersection) samples the point-estimated keys", floor=1)
+    fi = m.func("nifty.cl.minimization.kl_energies", "SampledKLEnergy")
+    ctx.saw_func(fi)
+    from ..util import cfg_of, find_nodes
+    cfg = cfg_of(fi)
+    rd = cfg.reaching_defs(params=fi.params())
+    key = f"{fi.key}::samples are drawn from the Hamiltonian reduced by point_estimates"
+    sites = find_nodes(cfg, lambda q: isinstance(q, ast.Call) and call_name(q) == "draw_samples" and len(q.args) >= 2)
+    if len(sites) != 1:
+        ctx.und(R, key, f"{len(sites)} draw_samples calls", fi)
+        return
+    node, call = sites[0]
+    h = call.args[1]
+    if not isinstance(h, ast.Name):
+        ctx.und(R, key, f"second argument `{src(h)}`", fi, call)
+        return
+    defs = [cfg.nodes[d].ast for d in (rd.get(node.id) or {}).get(h.id, ()) if cfg.nodes[d].ast is not None]
+    if h.id in fi.params() and not defs:
+        ctx.bad(R, key, f"draw_samples is handed the unreduced parameter `{h.id}`", fi, call)
+        return
+    verdict, det = None, f"definitions of `{h.id}`: {[short(d, 60) for d in defs]}"
+    for d in defs:
+        if isinstance(d, ast.Assign) and isinstance(d.value, ast.Call) and call_name(d.value) == "_reduce_by_keys" and len(d.value.args) >= 3:
+            third = d.value.args[2]
+            pe = any(isinstance(z, ast.Name) and z.id == "point_estimates" for z in ast.walk(third))
+            verdict = True if pe and verdict is not False else False
+            det = f"`{short(d, 80)}`" + ("" if pe else f": reduced by `{src(third)}`, not by the point estimates")
+    ctx.check(R, key, verdict, det, fi, call)
+
+
+_run_c18d = run
+
+
+def run(ctx):  # noqa: F811
+    _run_c18d(ctx)
+    r18_7(ctx, ctx.model)
+
+
+# ---------------------------------------------------------------------------------------------------------------- R18.8
+def r18_8(ctx, m):
+    R = "R18.8"
+    ctx.rule(R, "classic draw_samples (geometric branch): the prior part of the metric (second operand of the SamplingEnabler) is a unit "
+                "ScalingOperator whose sampling dtype comes from the Hamiltonian's prior energy (data flow from H.prior_energy), not a "
+                "literal type - with a hard-coded real dtype the geoVI samples of a linear model with complex latent fields differ "
+                "from its MGVI samples", floor=1)
+    fi = m.func(KL, "draw_samples")
+    ctx.saw_func(fi)
+    key = f"{fi.key}::dtype of the prior noise in the geometric branch"
+    se = [c for c in walk_no_nested(fi.node) if isinstance(c, ast.Call) and call_name(c) == "SamplingEnabler" and len(c.args) >= 2]
+    if len(se) != 1:
+        ctx.und(R, key, f"{len(se)} SamplingEnabler constructions", fi)
+        return
+    pr = se[0].args[1]
+    env = {st.targets[0].id: st.value for st in walk_no_nested(fi.node) if isinstance(st, ast.Assign) and len(st.targets) == 1 and isinstance(st.targets[0], ast.Name)}
+    if isinstance(pr, ast.Name) and pr.id in env:
+        pr = env[pr.id]
+    if not (isinstance(pr, ast.Call) and call_name(pr) == "ScalingOperator"):
+        ctx.und(R, key, f"prior operand `{short(pr, 60)}` is not a ScalingOperator", fi, se[0])
+        return
+    dt = pr.args[2] if len(pr.args) > 2 else next((k.value for k in pr.keywords if k.arg == "sampling_dtype"), None)
+    if dt is None:
+        ctx.bad(R, key, f"`{src(pr)}` has no sampling dtype", fi, pr)
+        return
+    literal = {"float", "complex", "np.float64", "np.complex128", "np.float32", "np.complex64"}
+    if src(dt) in literal:
+        ctx.bad(R, key, f"`{src(pr)}`: literal dtype `{src(dt)}`, whatever prior_sampling_dtype the Hamiltonian was built with", fi, pr)
+        return
+    # follow the name through all its assignments in the function
+    seen, todo, from_prior = set(), [dt], False
+    while todo:
+        e = todo.pop()
+        if "prior" in src(e) and any(isinstance(z, ast.Attribute) and "prior" in z.attr for z in ast.walk(e)):
+            from_prior = True
+        for z in ast.walk(e):
+            if isinstance(z, ast.Name) and z.id not in seen:
+                seen.add(z.id)
+                for st in walk_no_nested(fi.node):
+                    if isinstance(st, ast.Assign) and any(isinstance(t, ast.Name) and t.id == z.id for t in st.targets):
+                        todo.append(st.value)
+    ctx.check(R, key, True if from_prior else None, f"`{src(pr)}`; dtype derives from the prior energy: {from_prior}", fi, pr)
+
+
+_run_c18e = run
+
+
+def run(ctx):  # noqa: F811
+    _run_c18e(ctx)
+    r18_8(ctx, ctx.model)
+
+
+_run_c18f = run
+
+
+def run(ctx):  # noqa: F811
+    _run_c18f(ctx)
+    from .alias import alias
+    from . import c12, c20
+    # frozen (point-estimated) parameters enter the frozen likelihood's metric with zero tangents (shared with C12);
+    # the linearised data of the Wiener-filter sampler (shared with C20)
+    alias(ctx, c12._run_c12, {"R12.3": "R18.9"}, "shared with C12")
+    alias(ctx, c20._run_c20c, {"R20.1": "R18.10"}, "shared with C20")
+
+
+
+# ---------------------------------------------------------------------------------------------------------------- R18.11
+def r18_11(ctx, m):
+    R = "R18.11"
+    ctx.rule(R, "white noise behind the metric samples (nifty.re.evi): a standard normal in the sense of the energies (0.5 |x|^2: unit "
+                "variance per REAL degree of freedom) - jax.random.normal draws complex numbers with variance 1/2 per component, so "
+                "every white-noise draw that can be complex (data-space tangents of the likelihood, complex latent parameters) is "
+                "scaled by sqrt(2) on its complex leaves; real leaves are left alone", floor=2)
+    mod = m.module(EVI)
+    gens = _white_generators(m) - {"random_like"}
+    for fname in ("sample_likelihood", "draw_linear_residual"):
+        fi = m.func(EVI, fname)
+        ctx.saw_func(fi)
+        raw = [c for c in walk_no_nested(fi.node) if isinstance(c, ast.Call) and call_name(c) == "random_like"]
+        ctx.check(R, f"{fi.key}::white noise is drawn through the complex-aware generator", not raw,
+                  f"`{short(raw[0], 60)}`: complex leaves have variance 1/2 per component - the likelihood part of the metric sample of a "
+                  "model with complex data has half the covariance of the metric" if raw else f"generators: {sorted(gens)}", fi, raw[0] if raw else None)
+    for g in sorted(gens):
+        fi = m.func(EVI, g)
+        ctx.saw_func(fi)
+        t = src(fi.node)
+        cplx = any(isinstance(z, ast.Call) and call_name(z) in ("iscomplexobj", "iscomplex", "issubdtype") for z in ast.walk(fi.node))
+        sq2 = "sqrt(2" in t.replace(" ", "") or "2**0.5" in t.replace(" ", "") or "2.0**0.5" in t.replace(" ", "")
+        ctx.check(R, f"{fi.key}::scales exactly the complex leaves by sqrt(2)", True if (cplx and sq2) else None, None, fi)
+
+
+_run_c18g = run
+
+
+def run(ctx):  # noqa: F811
+    _run_c18g(ctx)
+    r18_11(ctx, ctx.model)
